@@ -470,35 +470,45 @@ func TestC20MmapDenied(t *testing.T) {
 		return
 	}
 	atomic.StoreUintptr(&placeHolderIns.off, placeHolderIns.min)
-	results := make([]*Space, 0, 400)
+	type granted struct {
+		s *Space
+		n int
+	}
+	results := make([]granted, 0, 400)
 	errs := 0
+	// sizes that are and are not multiples of the usual alignments: neighbours in the reserve touch at odd addresses
+	sizes := []int{48, 20, 33, 7, 61, 16, 48, 1}
 	lim := syscall.Rlimit{Cur: vm, Max: old.Max}
 	if err := syscall.Setrlimit(9, &lim); err != nil {
 		rep.Inconclusive = "setrlimit: " + err.Error()
 		return
 	}
-	for i := 0; i < 300; i++ {
-		s, err := Acquire(48)
+	for i := 0; i < 400; i++ {
+		n := sizes[i%len(sizes)]
+		s, err := Acquire(n)
 		if err != nil {
 			errs++
 			if err != errSpaceOverflow {
-				results = append(results, nil)
+				results = append(results, granted{nil, n})
 			}
 			continue
 		}
-		results = append(results, s)
+		results = append(results, granted{s, n})
 	}
 	syscall.Setrlimit(9, &old)
 	debug.SetGCPercent(100)
-	holder, mm := 0, 0
+	holder, mm, total := 0, 0, 0
 	var end uintptr
 	sort.Slice(results, func(i, j int) bool {
-		if results[i] == nil || results[j] == nil {
-			return results[j] == nil && results[i] != nil
+		if results[i].s == nil || results[j].s == nil {
+			return results[j].s == nil && results[i].s != nil
 		}
-		return results[i].Addr < results[j].Addr
+		return results[i].s.Addr < results[j].s.Addr
 	})
-	for _, s := range results {
+	beyond := vmon.ReadMem(placeHolderIns.max, 32)
+	var inReserve []granted
+	for _, g := range results {
+		s := g.s
 		rep.Eval(1)
 		if s == nil {
 			rep.Violate("C20/holder-unexpected-error", "Acquire under denied mmap failed with something other than exhaustion", nil)
@@ -509,24 +519,63 @@ func TestC20MmapDenied(t *testing.T) {
 			continue
 		}
 		holder++
-		if s.Addr < placeHolderIns.min || s.Addr+48 > placeHolderIns.max {
-			rep.Violate("C20/holder-outside-reserve", fmt.Sprintf("region [%#x,+48) outside reserve [%#x,%#x)", s.Addr, placeHolderIns.min, placeHolderIns.max), nil)
+		total += g.n
+		if s.Addr < placeHolderIns.min || s.Addr+uintptr(g.n) > placeHolderIns.max {
+			rep.Violate("C20/holder-outside-reserve", fmt.Sprintf("region [%#x,+%d) outside reserve [%#x,%#x)", s.Addr, g.n, placeHolderIns.min, placeHolderIns.max), nil)
+			continue
 		}
 		if s.Addr < end {
 			rep.Violate("C20/holder-overlap", fmt.Sprintf("region at %#x overlaps previous ending %#x", s.Addr, end), nil)
 		}
-		end = s.Addr + 48
-		v := uint32(0xDE0000 + holder)
-		if (s.Addr&4095)+48 > 4096 {
+		end = s.Addr + uintptr(g.n)
+		inReserve = append(inReserve, g)
+	}
+	code := func(k int, n int) []byte {
+		if n >= 6 {
+			return stubCodeN(uint32(0xDE0000+k), n)
+		}
+		c := make([]byte, n)
+		for i := range c {
+			c[i] = byte(0xA0 + k%64)
+		}
+		return c
+	}
+	// every region is filled to its full length through the provided writer, the highest one first (what a write spills
+	// behind its region lands in a neighbour that has its content already), then all of them are read back and called
+	for k := len(inReserve) - 1; k >= 0; k-- {
+		g := inReserve[k]
+		if (g.s.Addr&4095)+uintptr(g.n) > 4096 {
 			rep.Stat("holder_regions_straddling_a_page_written", 1)
 		}
-		if err := safeWrite(s, stubCodeN(v, 48)); err != nil {
+		if err := safeWrite(g.s, code(k, g.n)); err != nil {
 			rep.Violate("C20/holder-write-failed", err.Error(), nil)
-		} else if back := vmon.ReadMem(s.Addr, 48); string(back) != string(stubCodeN(v, 48)) {
-			rep.Violate("C20/holder-write-failed", fmt.Sprintf("region at %#x reads back %x", s.Addr, back), nil)
-		} else if got := callStub(s.Addr); uint32(got) != v {
-			rep.Violate("C20/holder-stub-not-executable", fmt.Sprintf("stub at %#x returned %#x", s.Addr, got), nil)
 		}
+	}
+	for pass := 0; pass < 2; pass++ {
+		for k, g := range inReserve {
+			rep.Eval(1)
+			want := code(k, g.n)
+			if back := vmon.ReadMem(g.s.Addr, g.n); string(back) != string(want) {
+				rep.Violate("C20/region-content-destroyed-by-another-write", fmt.Sprintf("region %d [%#x,+%d) of the reserve, filled through the provided writer, reads back % x, want % x (regions were filled from the highest address down%s)", k, g.s.Addr, g.n, back, want,
+					map[int]string{0: "", 1: "; second pass: after every region was filled once more from the lowest address up"}[pass]), nil)
+				break
+			} else if g.n >= 6 {
+				if got := callStub(g.s.Addr); uint32(got) != uint32(0xDE0000+k) {
+					rep.Violate("C20/holder-stub-not-executable", fmt.Sprintf("stub at %#x returned %#x", g.s.Addr, got), nil)
+					break
+				}
+			}
+		}
+		if pass == 0 {
+			for k, g := range inReserve {
+				if err := safeWrite(g.s, code(k, g.n)); err != nil {
+					rep.Violate("C20/holder-write-failed", err.Error(), nil)
+				}
+			}
+		}
+	}
+	if now := vmon.ReadMem(placeHolderIns.max, 32); string(now) != string(beyond) {
+		rep.Violate("C20/write-beyond-the-reserve", fmt.Sprintf("the 32 bytes behind the reserve changed while its regions were filled: % x -> % x", beyond, now), nil)
 	}
 	rep.Stat("mmap_denied_requests_served_by_holder", int64(holder))
 	rep.Stat("mmap_denied_requests_served_by_mmap", int64(mm))
@@ -535,9 +584,8 @@ func TestC20MmapDenied(t *testing.T) {
 	if holder == 0 {
 		rep.Inconclusive = "RLIMIT_AS did not make mmap fail; fallback dispatch not observed"
 	}
-	want := int((placeHolderIns.max - placeHolderIns.min) / 48)
-	if holder > want {
-		rep.Violate("C20/holder-overrun", fmt.Sprintf("%d regions of 48 bytes granted from a reserve of %d bytes", holder, placeHolderIns.max-placeHolderIns.min), nil)
+	if total > int(placeHolderIns.max-placeHolderIns.min) {
+		rep.Violate("C20/holder-overrun", fmt.Sprintf("%d regions of %d bytes in all granted from a reserve of %d bytes", holder, total, placeHolderIns.max-placeHolderIns.min), nil)
 	}
 	rep.Sample(map[string]interface{}{"path": "Acquire with mmap denied (RLIMIT_AS)", "served_by_holder": holder, "exhaustion_errors": errs})
 }
